@@ -56,9 +56,11 @@ S0 == [cfg |-> [access |-> "flat", policy |-> "immutable", old |-> 0, cur |-> 1,
        pops |-> 0,         \* PopFront events
        touch |-> <<>>,     \* <<inst, key>> -> [a |-> allocs at the start of the touching call, e |-> line of its end]
        corrupted |-> FALSE,
+
        dets |-> {},        \* [b, line]: corruption detected in block b at line
        blkRegion |-> <<>>, openR |-> <<>>, openW |-> <<>>,
        wblk |-> <<>>,      \* process -> block its upload is written into
+       rblk |-> <<>>,      \* process -> block of the reader it opened last (cooperative runs)
        lastPut |-> <<>>,   \* <<inst, key>> -> [a |-> allocs at the start of the latest acknowledged upload, e |-> line of its end, blk |-> block written]
        idem |-> FALSE,     \* a successful touch is being repeated immediately
        \* persistence
@@ -105,6 +107,7 @@ OpStart(kind) ==
     \* key by the same process and nothing else is in flight
     /\ s' = [s EXCEPT
           !.inflight = Put0(@, Ev.p, [a |-> s.allocs, line |-> l, ta |-> s.tallocs]),
+          !.rblk = IF Ev.p \in DOMAIN @ THEN Del(@, Ev.p) ELSE @,
           !.idem = /\ kind \in {"GetStart", "FmStart"} /\ l > 1 /\ DOMAIN s.inflight = {}
                    /\ Trace[l - 1].ev = (IF kind = "GetStart" THEN "GetEnd" ELSE "FmEnd")
                    /\ Trace[l - 1].p = Ev.p
@@ -176,8 +179,15 @@ GetEnd ==
        \* C05 "stays readable": an integrity failure or foreign bytes are as unreadable as NOT_FOUND
        /\ ((Ev.kind = "Error" /\ Ev.what = "Internal") \/ (Ev.kind = "Data" /\ Ev.what # Ev.k)) => RetentionOK(KeyOf(Ev), op)
        /\ SurvivalOK(KeyOf(Ev), Ev.kind = "Data")
+       \* C08: a read that does not complete fails as NOT_FOUND, as INTERNAL (stored data no longer matches its digest /
+       \* no longer parses) or as UNAVAILABLE (no space to refresh, shutting down) - never as a client error
+       /\ (On("C08") /\ Ev.kind = "Error") => Ev.what \in {"Internal", "Unavailable"}
        /\ s' = [s EXCEPT
              !.touch = IF Ev.kind = "Data" THEN Put0(@, KeyOf(Ev), [a |-> op.a, e |-> l]) ELSE @,
+             \* a read that fails with INTERNAL has detected corruption in the block it was reading, whether or not
+             \* the integrity callback was told so
+             !.dets = IF s.cfg.coop /\ Ev.kind = "Error" /\ Ev.what = "Internal" /\ Ev.p \in DOMAIN s.rblk
+                      THEN @ \cup {[b |-> s.rblk[Ev.p], line |-> l]} ELSE @,
              !.inflight = Del(@, Ev.p),
              !.idem = FALSE]
 
@@ -243,7 +253,8 @@ ReaderOpen ==
     \* C08: an operation invoked after corruption was detected in block b does not read from blocks <= b
     /\ (On("C08") /\ Ev.p \in DOMAIN s.inflight) =>
            ~\E d \in s.dets : Ev.blk <= d.b /\ s.inflight[Ev.p].line > d.line
-    /\ s' = [s EXCEPT !.openR = Put0(@, Ev.blk, Get0(@, Ev.blk, 0) + 1)]
+    /\ s' = [s EXCEPT !.openR = Put0(@, Ev.blk, Get0(@, Ev.blk, 0) + 1),
+                      !.rblk = IF Ev.p # "" THEN Put0(@, Ev.p, Ev.blk) ELSE @]
 
 ReaderClose ==
     /\ Ev.ev = "ReaderClose"
@@ -312,7 +323,7 @@ Crash ==
 Restart ==
     /\ Ev.ev = "Restart"
     /\ s' = [s EXCEPT !.phase = "post", !.inflight = <<>>, !.allocs = 0, !.relsd = 0, !.pops = 0, !.touch = <<>>,
-                      !.dets = {}, !.blkRegion = <<>>, !.openR = <<>>, !.openW = <<>>, !.wblk = <<>>, !.lastPut = <<>>, !.idem = FALSE,
+                      !.dets = {}, !.blkRegion = <<>>, !.openR = <<>>, !.openW = <<>>, !.wblk = <<>>, !.rblk = <<>>, !.lastPut = <<>>, !.idem = FALSE,
                       !.cand = NoCommit, !.candSynced = NoCommit, !.candState = NoCommit, !.committed = NoCommit,
                       !.lastSyncT = -1, !.shutdown = FALSE, !.listedSnap = {}, !.listed = {}]
 
